@@ -122,16 +122,17 @@ func (h *H) watchClose(ctx *impls.HandlerContext) {
 	s := ctx.ActorContext.Actor().(*Svc)
 	id := ctx.Session.GetNetId()
 	n := h.n
+	fi := FrontOf(s.name)
 	n.sessMu.Lock()
-	_, done := n.closeWatched[id]
-	n.closeWatched[id] = true
+	_, done := n.closeWatched[viewKey(fi, id)]
+	n.closeWatched[viewKey(fi, id)] = true
 	n.sessMu.Unlock()
 	if done {
 		return
 	}
 	impls.AddOnSessionOnClose(s.NodeService, id, func(_ *service.NodeService, fs *cs.FrontSession) {
 		n.sessMu.Lock()
-		n.closeView2[fs.GetNetId()] = fs.ToJson()
+		n.closeView2[viewKey(fi, fs.GetNetId())] = fs.ToJson()
 		n.sessMu.Unlock()
 	})
 }
@@ -200,10 +201,13 @@ type backHandle struct {
 }
 
 // BackNew creates a BackSession for (front gate-1, connection netId) inside instance inst.
-func (n *Node) BackNew(h, inst int64, netId uint32) error {
+func (n *Node) BackNew(h, inst int64, netId uint32) error { return n.BackNewOn(h, inst, 0, netId) }
+
+// BackNewOn creates a BackSession for (front-end fi, connection netId) inside instance inst.
+func (n *Node) BackNewOn(h, inst int64, fi int, netId uint32) error {
 	s := n.Svc(inst)
 	return s.Exec(func() {
-		bs := cs.NewBackSession(s.NodeService, "gate-1", netId, "")
+		bs := cs.NewBackSession(s.NodeService, FrontNames[fi], netId, "")
 		if h%2 == 1 {
 			bs = cs.CloneBackSession(bs) // same (front, connection, id), nothing else
 		}
@@ -226,14 +230,17 @@ func (n *Node) HasBack(h int64) bool { return n.handle(h) != nil }
 func (n *Node) ClearBacks() {
 	n.sessMu.Lock()
 	n.bsTab = map[int64]*backHandle{}
-	n.closeView = map[uint32]string{}
-	n.closeView2 = map[uint32]string{}
-	n.closeWatched = map[uint32]bool{}
+	n.closeView = map[uint64]string{}
+	n.closeView2 = map[uint64]string{}
+	n.closeWatched = map[uint64]bool{}
 	n.sessMu.Unlock()
 }
 
 // BackNetId is the connection id a handle addresses.
 func (n *Node) BackNetId(h int64) uint32 { return n.handle(h).bs.NetId }
+
+// BackFront is the front-end a handle addresses, as the session object says (ServerId).
+func (n *Node) BackFront(h int64) string { return n.handle(h).bs.ServerId }
 
 // BackSet runs bs.Set(k, v) (bs.Bind for _ID with a string) in the owning service.
 func (n *Node) BackSet(h int64, k string, v *Val) error {
